@@ -8,28 +8,29 @@ TRANSLATORS = [t2_gql_tokens.translate]
 LEAN_MODULES = ["IsoVerif.Props.C09"]
 _P = "IsoVerif.Props.C09."
 THEOREMS = [_P + t for t in (
-    "C09_witness_apostrophe", "C09_statement_false", "C09_fixed_undeclared_nested_variable",
-    "C09_fixed_object_replaced_by_variable", "C09_witness_negative_int_alias", "C09_witness_alias_collision",
-    "C09_fixed_non_null_list_variable", "C09_fixed_unused_pointer_variable", "C09_plain_valid", "C09_js_embedding",
+    "C09_witness_negative_int_alias", "C09_statement_false", "C09_fixed_apostrophe", "C09_fixed_undeclared_nested_variable",
+    "C09_fixed_object_replaced_by_variable", "C09_witness_alias_collision", "C09_fixed_non_null_list_variable",
+    "C09_fixed_unused_pointer_variable", "C09_plain_valid", "C09_js_embedding", "C09_js_embedding_before_repair",
     "C09_distinct_keys_merge", "C09_declared_eq_used", "C09_declared_eq_used_before_repair",
     "C09_fixed_nested_variable_not_collected", "C09_valid_partial")]
 HARNESS = ("hx_ops", {"HX_ENGINE": "c09"})
 DRIVER = "drv_ops"
-CASES = {"quick": 300, "thorough": 6000}
+CASES = {"quick": 200, "thorough": 6000}
 TECHNIQUE = ("Lean 4: ECMAScript string-literal evaluation of the generated module (jsValue), the gql family's reference lexer/parser "
              "written from the June-2018 specification, and a validator for executable documents written from §5 of the specification "
              "(field existence, leaf/composite shape, arguments, input coercion, fragments, variables, FieldsInSetCanMerge); theorems for "
              "the JavaScript embedding, mergeability and declared = used variables; kernel-evaluated witnesses; direct oracle on every "
              "operation the REAL compiler generates for generated projects and the checked-in demos, the module evaluated under node")
-LEVEL_TEXT = ("Kernel-checked for every input: `export default '<text>';` evaluates (ECMAScript string-literal semantics) to the text with the "
-              "printer's backslash+LF continuations removed whenever the text has no apostrophe, carriage return or other backslash/line feed "
-              "(C09_js_embedding); a selection set with pairwise distinct response names passes FieldsInSetCanMerge for every schema "
+LEVEL_TEXT = ("Kernel-checked for every input: the file the compiler writes for an operation text (export default + the text with ' and \\ escaped, "
+              "transcribed as queryTextFile) evaluates under ECMAScript string-literal semantics to exactly that text with the printer's "
+              "backslash+LF continuations removed, for EVERY text of BMP characters without carriage return or stray line feed — apostrophes and "
+              "backslashes included (C09_js_embedding; before the repair dc59a0f only for texts without them: C09_js_embedding_before_repair); a selection set with pairwise distinct response names passes FieldsInSetCanMerge for every schema "
               "(C09_distinct_keys_merge); the variables the compiler collects from a merged selection map (and declares) are exactly the "
               "variables the printed operation uses, for every map (C09_declared_eq_used; before the repair af3b32d only without nested "
               "variables: C09_declared_eq_used_before_repair, with the F12 map as the counterexample); composition C09_valid_partial. Kernel-evaluated closed facts: the "
-              "operations the real compiler prints for the F11/F13 witness programs do not parse / are invalid / are not JavaScript; the "
-              "operations it printed for the F12/F12b, non-null-list and pointer-variable programs before the repairs are invalid, the ones "
-              "it prints now are valid. The property itself is evaluated by the driver on every query_text.ts / "
+              "operations the real compiler prints for the F11 witness programs do not parse / are invalid; the files and operations it "
+              "wrote for the F13, F12/F12b, non-null-list and pointer-variable programs before the repairs are not JavaScript / invalid, the "
+              "ones it writes now are valid. The property itself is evaluated by the driver on every query_text.ts / "
               "__refetch__query_text__N.ts the real compiler writes: node's value of the module must equal the model's jsValue, must parse "
               "with the reference parser and pass validation against the schema file the compiler read.")
 LEVEL_NOTE = ("Trusted: Lean kernel; t2_gql_tokens (the reference lexer itself is hand-written from the spec and does not use the table); "
@@ -39,9 +40,9 @@ LEVEL_NOTE = ("Trusted: Lean kernel; t2_gql_tokens (the reference lexer itself i
               "the implementation's strings on every run instead.")
 PARTIAL = ["no model of the whole compile step: the theorems are about the artifact text, the merged selection map and the validator; "
            "C09_valid_partial takes the parse and validity of the text as hypotheses",
-           "F11 (negative int / collapsing string aliases), F13 (apostrophe), user variable named `id`, required input-object fields: "
-           "open findings with witness theorems or corpus cases; F12 / F12b (variables inside object arguments), non-null list variables "
-           "and unused variables below client pointers were repaired (af3b32d, e06371c, 31b992f)",
+           "F11 (negative int / collapsing string aliases), user variable named `id`, required input-object fields: open findings with "
+           "witness theorems or corpus cases; F13 (apostrophe), F12 / F12b (variables inside object arguments), non-null list variables "
+           "and unused variables below client pointers were repaired (dc59a0f, af3b32d, e06371c, 31b992f)",
            "custom scalars accept any literal; directives other than @skip/@include are reported as unknown (the compiler emits none)",
            "persisted documents (compact text in persisted_documents.json) are covered by C26, not here"]
 ASSUMPTIONS = ["ECMAScript 2019+ string literal semantics in strict mode (U+2028/2029 allowed unescaped, octal escapes are errors)",
